@@ -216,7 +216,7 @@ def run():
                            'extents 1-%d, <=%d ranks, 2-5 layouts; every ordered pair (capped in quick), buffer or not, float/complex/int; '
                            'non-trivial = different layouts on more than one rank; distinct = (shape, grid, source, dest, buffer, dtype)'
                            % (6 if chk.tier == 'quick' else 9, 6 if chk.tier == 'quick' else 12),
-                      uncovered=['that LayoutHandler.compatible implies route_ok_b is checked per route (certificate), not proved',
+                      uncovered=['the routes themselves are taken from the handler (certificate validated by route_ok_b); that every pair the handler connects directly is acceptable is proved (c01_compatible_step_ok)',
                                  'frame of a single step (which cells of source/dest/buf are written) is tested, not proved',
                                  'fast path (whole-buffer transpose) = per-rank unpack: covered by the differential strata div/eq, not a separate theorem'])
 
